@@ -27,7 +27,7 @@ FIRST_BUDGET = 400
 
 def jobs(tier, seed, report):
     report.bounds = {'magnitudes': 'unbounded rationals', 'powers': '-2..2 without 0 (symbolic)', 'exponent_of_pow': '-4..4 symbolic integer; non-integers and unit-carrying exponents must be refused',
-                     'shapes': 'quick: 1x1 entries over a seeded sample of all unit pairs + the whole 14-unit basis squared, 2x1 sampled from the basis; thorough: all 1x1 pairs, 2x1 and 2x2 over the basis',
+                     'shapes': 'quick: 1x1 entries over a seeded sample of all unit pairs + the whole 14-unit basis squared, 2x1 sampled from the basis; thorough: 1500 seeded 1x1 pairs, all 2x1 and 400 seeded 2x2 shapes over the basis',
                      'profiles': 'dev and release MIR (release: 1x1 basis only in quick)'}
     report.outside = ['more than 2 entries per operand', 'offset units (C09)', 'prefixes other than {0,3} on the first entry']
     report.assumptions = ['BigRational exact (SMT Real; products of symbolic magnitudes are nonlinear real arithmetic)', 'declared unit scales are checked against the standards in C05']
@@ -40,7 +40,7 @@ def jobs(tier, seed, report):
     js = []
     pairs = [(a, b) for a in voc for b in voc]
     rnd.shuffle(pairs)
-    if tier == 'quick': pairs = pairs[:220]
+    pairs = pairs[:220 if tier == 'quick' else 1500]
     pairs += [(a, b) for a in B for b in B]
     for i in range(0, len(pairs), 6): js.append({'name': f'1x1-{i}', 'kind': 'muldiv', 'profile': 'dev', 'shapes': [([a], [b]) for a, b in pairs[i:i + 6]]})
     pp = [(a, b) for a in B for b in B]; rnd.shuffle(pp)
@@ -263,6 +263,10 @@ def unit_entries(js):
         if isinstance(u, dict): u = _ID2NAME.get(u['derived'], f'derived#{u["derived"]}')
         out.append((u, p, f))
     return out
+
+def validate(tier, seed, report):
+    from props import unitlib
+    return unitlib.validate_kernels(seed, 80 if tier == 'quick' else 400, ops=('mul', 'div', 'pow'))
 
 def known_match(k, c): return True
 
